@@ -45,6 +45,9 @@ def leaves(enc):
             elif "__m" in e:
                 for x in e["__m"].values():
                     rec(x)
+            elif "__it" in e:  # a one-shot iterator over the members
+                for x in e["__it"]:
+                    rec(x)
             else:
                 raise ValueError(f"bad encoded container {e!r}")
         else:
